@@ -58,6 +58,10 @@ def candidates(r, tier):
         if n and n <= 64:
             out.append(bytes([1]) * n)
             out.append(bytes([n & 0xff]) + bytes(n - 1))
+        if n and n <= 16:
+            out.append(bytes([0xff]) * n)          # sign bits set: negative Int / signed enum values
+            out.append(bytes([0x80]) * n)
+            out.append(bytes([1]) + bytes([0xfb, 0xff] * n)[:n - 1])
     for _ in range(30 if tier == "quick" else 300):
         n = r.choice(sizes[:48])
         out.append(bytes(r.randrange(256) if r.random() < 0.5 else r.choice([0, 1, 2, 3]) for _ in range(n)))
@@ -247,7 +251,12 @@ def run_corpus(chk, tier):
         seen_per_struct, seen_per_call = {}, {}
         lines2 = []
         corpus_file = origin.startswith("corpus/")
-        for ln in ok_lines:
+        # a spread over the candidate buffers (zero / pattern / random fill, all sizes) rather than
+        # the first few: deterministic shuffle, the all-zero buffers stay in
+        zero_first = [ln for ln in ok_lines if set(ln.split(" ")[5]) <= set("0-")][:2 * len(structs)]
+        rest = [ln for ln in ok_lines if ln not in set(zero_first)]
+        r.shuffle(rest)
+        for ln in zero_first + rest:
             p = ln.split(" ")
             s, call = p[0], (p[0],) + tuple(p[6:])
             seen_per_call[call] = seen_per_call.get(call, 0) + 1
